@@ -11,6 +11,10 @@ pub struct Case {
     pub k: usize,
     pub n: usize,
     pub rng: RngSpec,
+    /// items fed to the sampler before a clear() (0 = fresh sampler); afterwards the same validity
+    /// is required of the reused sampler
+    #[serde(default)]
+    pub prefill: usize,
 }
 
 fn validate(rs: &ReservoirSampling<u64, ScriptRng>, k: usize, n: usize, seen: &mut Vec<u32>, epoch: u32) -> Result<(), (String, String)> {
@@ -58,6 +62,14 @@ impl Check for C18 {
         let mut rs: ReservoirSampling<u64, ScriptRng> = ReservoirSampling::new(c.k, rng);
         let mut seen = vec![0u32; c.n + 1];
         let mut epoch = 1u32;
+        if c.prefill > 0 {
+            for j in 0..c.prefill {
+                if let Err(p) = catch(|| rs.add(u64::MAX - j as u64)) {
+                    return fail(panic_sig(&p), format!("add #{} (before clear) panicked: {} [k={}]", j + 1, p, c.k));
+                }
+            }
+            rs.clear();
+        }
         if let Err((sig, msg)) = validate(&rs, c.k, 0, &mut seen, epoch) {
             return fail(sig, msg);
         }
@@ -86,6 +98,7 @@ impl Check for C18 {
             .class_if(three_phases, "all_three_phases")
             .class_if(extreme, "extreme_rng_words")
             .class_if(c.k == 1, "k=1")
+            .class_if(c.prefill > 0, "reused_after_clear")
             .class_if(handle.borrow().drawn > 0, "rng_used");
         info.inner_evals = checked;
         Verdict::Pass(info)
@@ -95,8 +108,8 @@ impl Check for C18 {
 fn strategy(tier: Tier) -> BoxedStrategy<Case> {
     let kmax = tier.pick(40usize, 2000usize);
     let nmax = tier.pick(2_000usize, 200_000usize);
-    (prop_oneof![3 => 1usize..=8, 3 => 1usize..=40, 1 => 1usize..=kmax], rng_spec(), any::<u16>(), 0u8..10)
-        .prop_map(move |(k, rng, nsel, mode)| {
+    (prop_oneof![3 => 1usize..=8, 3 => 1usize..=40, 1 => 1usize..=kmax], rng_spec(), any::<u16>(), 0u8..10, prop_oneof![3 => Just(0u16), 1 => any::<u16>()])
+        .prop_map(move |(k, rng, nsel, mode, pre)| {
             // n across the three phases and their borders
             let n = match mode {
                 0 => idx(nsel, k + 2),
@@ -106,7 +119,9 @@ fn strategy(tier: Tier) -> BoxedStrategy<Case> {
                 5 | 6 => idx(nsel, 50 * k + 1),
                 _ => idx(nsel, nmax),
             };
-            Case { k, n: n.min(nmax), rng }
+            // a reused sampler: up to 60k items before the clear()
+            let prefill = if pre == 0 { 0 } else { 1 + idx(pre, 60 * k.min(200) + 2) };
+            Case { k, n: n.min(nmax), rng, prefill }
         })
         .boxed()
 }
@@ -116,7 +131,7 @@ pub fn checks() -> Vec<Box<dyn DynCheck>> {
 }
 
 pub fn run(ctx: &Ctx) {
-    ctx.set_rule("generated: k in 1..=40 (2000 thorough), n from 0 across k, 4k, 4k+1 up to 50k and beyond, RNG = generated script of extreme words (0, u64::MAX, single bits, random) followed by a seeded PRNG tail; the stream is position ids 0..n. After every add (large cases: at a stride plus all phase borders): reservoir().len() == min(n,k), every item < n, no position twice, prefix order while n <= k, i() == n, is_empty iff n == 0, no panic. Non-trivial: n > 4k (all three phases) or a script containing 0 / u64::MAX words. Distinct = hash of the case; evaluations = cases + validations.");
+    ctx.set_rule("generated: k in 1..=40 (2000 thorough), n from 0 across k, 4k, 4k+1 up to 50k and beyond, RNG = generated script of extreme words (0, u64::MAX, single bits, random) followed by a seeded PRNG tail; the stream is position ids 0..n; a quarter of the cases first feed up to 60k other items and clear() the sampler (a cleared sampler must be as valid as a fresh one). After every add (large cases: at a stride plus all phase borders): reservoir().len() == min(n,k), every item < n, no position twice, prefix order while n <= k, i() == n, is_empty iff n == 0, no panic. Non-trivial: n > 4k (all three phases) or a script containing 0 / u64::MAX words. Distinct = hash of the case; evaluations = cases + validations.");
     ctx.run_regressions(&[&C18]);
     let t = ctx.tier;
     ctx.run_random(&C18, t.pick(3_000_000, 2_000_000), move || strategy(t));
